@@ -1657,6 +1657,12 @@ class Engine:
             return VFmt(A.template + Bv.template, A.args + Bv.args)
         if isinstance(a, str) and isinstance(b, str) and isinstance(op, ast.Add):
             return a + b
+        if isinstance(op, ast.Add) and isinstance(a, VArr) and isinstance(b, VTuple) and b.kind == 'list' and a.arr.sort().range() == z3.IntSort() \
+                and all((isinstance(x, int) and not isinstance(x, bool)) or (is_z3(x) and z3.is_int(x)) for x in b.items):
+            arr, n = a.arr, toz(a.length)            # int array + [x, y, ...]: a fresh list
+            for ix, x in enumerate(b.items):
+                arr = z3.Store(arr, n + ix, toz(x))
+            return VArr(z3.simplify(n + len(b.items)), arr)
         if isinstance(op, ast.Add) and isinstance(b, VArr) and isinstance(a, (VArr, VTuple)) and b.arr.sort().range() == z3.IntSort() \
                 and (isinstance(a, VArr) or (a.kind == 'list' and all(isinstance(x, (int, bool)) or (is_z3(x) and (z3.is_int(x) or z3.is_bool(x))) for x in a.items))):
             # list + list with an int array on the right: a fresh list (bools are kept as 0/1)
